@@ -2,7 +2,7 @@
    non-trivial instances (and the conclusions are not trivially true there). *)
 From Coq Require Import List Bool Arith NArith Lia Permutation Sorted.
 Import ListNotations.
-From DDP Require Import Det.Sorting Det.SortingProofs Det.Sites Det.SitesProofs Det.C16Model Det.C16ModelProofs Det.ExprTree Det.ExprTreeProofs.
+From DDP Require Import Det.Sorting Det.SortingProofs Det.Sites Det.SitesProofs Det.C16Model Det.C16ModelProofs Det.ExprTree Det.ExprTreeProofs Det.AliasSort Det.AliasSortProofs.
 
 Definition p11 := mkpos 1 1.
 Definition p15 := mkpos 1 5.
@@ -183,3 +183,12 @@ Proof.
   split; [vm_compute; reflexivity|]. split; [apply reorder_refl|]. split; [vm_compute; reflexivity|].
   split; [apply reorder_refl|vm_compute; reflexivity].
 Qed.
+
+(* sortAliases: three candidates of which two tie; the tie keeps the trie-search order, whichever way round it was *)
+Definition k1 := mkcand 1 3 0 0.
+Definition k2 := mkcand 2 3 0 0.
+Definition k3 := mkcand 3 5 0 1.
+Example nv_sort_aliases :
+  length [k1; k2; k3] <= 12 /\ same_rank k1 k2 = true /\
+  sort_aliases (fun l => l) [k1; k2; k3] = [k3; k1; k2] /\ sort_aliases (fun l => l) [k2; k3; k1] = [k3; k2; k1].
+Proof. split; [cbn; lia|]. split; [reflexivity|]. split; vm_compute; reflexivity. Qed.
